@@ -94,12 +94,20 @@ func Sign(t *testing.T, im *Impl) {
 	defer r.Finish()
 	p := im.start(r)
 	nCounter := r.Pick(300, 3000)
-	r.Rule(fmt.Sprintf("keys: xi in SEEDS(32); pk, sk bytes = KeyGen_internal; sk.Public(), Unpack/Pack round trip; signatures: every key x message lengths {0,1,63,64,65,200} x ctx {\"\",\"a\",255 bytes} (M' framing, ML-DSA) "+
+	r.Rule(fmt.Sprintf("keys: xi in SEEDS(32) plus the first two counter seeds LE64(c)||0^24 whose ExpandA stream contains a candidate == q; pk, sk bytes = KeyGen_internal; sk.Public(), Unpack/Pack round trip; signatures: every key x message lengths {0,1,63,64,65,200} x ctx {\"\",\"a\",255 bytes} (M' framing, ML-DSA) "+
 		"x rnd {0^32, FF^32, 00..1f} (hedged path; ignored by Dilithium), signed with the generated and with the unpacked key, plus %d counter messages \"verif-i\" under one key, plus counter messages under a crafted private key (t0 := 2^12 in some rows, 0 elsewhere) that drives the c*t0 and hint-weight rejections; "+
 		"sig bytes = Sign_internal of the reference; every signature is then verified by the implementation; distinct = (key, M', rnd); rejection-branch counters come from the reference's trace", nCounter))
 	key := func(fn, class string) string { return "C04|" + im.Name + "|" + fn + "|" + class }
 
 	seeds := verifmc.Seeds(32, r.Seed())
+	// key seeds whose ExpandA consumes a rejection-sampling candidate exactly equal to q (boundary.go)
+	for _, ks := range BoundaryKeySeeds(p, 2) {
+		ks := ks
+		seeds = append(seeds, ks.Seed[:])
+		r.Count("boundary_key_seeds", 1)
+		r.Sample(map[string]interface{}{"key_seed_with_ExpandA_candidate_eq_q": verifmc.FullHex(ks.Seed[:]), "counter": ks.Counter, "matrix_entry": []int{ks.Row, ks.Col}})
+	}
+	r.RequireCounter("boundary_key_seeds", 2)
 	type kp struct {
 		k        Key
 		pk, sk   []byte
